@@ -11,6 +11,8 @@ ties:   (a) regeneration from /repo on every run;
 keys:   corr:masm-translate:<helper>   a required helper could not be translated (broken tie)
         corr:masm-bytes:<helper>       model instruction list != what the real macro assembler emits
         corr:x64sem:<instr-set>        micro-semantics != host CPU
+        corr:remembered-rule           the hand model of the runtime's large-object / remembered rule (X64/MasmRuntimeRules.lean)
+                                       no longer matches the text of swiper.rs / mirror.rs / abi.rs
         oracle:masm-grid:<case>        a sequence computes something else than the exact result / takes the wrong trap
         proof:<theorem>                a theorem no longer builds; replay = the boundary-grid input on which the regenerated
                                        sequence differs from exact arithmetic, if the search finds one
@@ -24,8 +26,12 @@ from . import common as C
 
 PROP_MODULE = "DoraModel.Props.C01Masm"
 PROP_FILE = "DoraModel/Props/C01Masm.lean"
+ALLOC_MODULE = "DoraModel.Props.C13Masm"     # determine_array_size / compute_remembered_bit (serves C13, C02, C03)
+ALLOC_FILE = "DoraModel/Props/C13Masm.lean"
+RULES_FILE = "DoraModel/X64/MasmRuntimeRules.lean"
+ARRAY_ES = [1, 2, 3, 4, 5, 6, 7, 8, 12, 16, 20, 24, 32, 40, 1000]
 BV_AXIOM = "bv_decide"          # `..._native.bv_decide.ax_*`: the flag/bit lemmas of X64/MasmLemmas3.lean, MasmLemmasDiv.lean
-HYGIENE = (PROP_FILE, "DoraModel/X64/MasmSpec.lean", "DoraModel/X64/MasmLemmas.lean", "DoraModel/X64/MasmLemmas2.lean",
+HYGIENE = (PROP_FILE, ALLOC_FILE, RULES_FILE, "DoraModel/X64/MasmLemmasAlloc.lean", "DoraModel/X64/MasmSpec.lean", "DoraModel/X64/MasmLemmas.lean", "DoraModel/X64/MasmLemmas2.lean",
            "DoraModel/X64/MasmLemmas3.lean", "DoraModel/X64/MasmLemmasDiv.lean", "DoraModel/X64/Sem.lean",
            "DoraModel/X64/MasmPrelude.lean", "DoraModel/X64/MasmIOBase.lean", "DoraModel/Gen/Masm.lean",
            "DoraModel/Gen/MasmTypes.lean", "DoraModel/Gen/MasmDispatch.lean", "DoraModel/Gen/MasmInstrIO.lean")
@@ -148,7 +154,8 @@ THEOREM_KINDS = [("add_checked", "add_checked"), ("sub_checked", "sub_checked"),
                  ("neg_checked", "neg_checked"), ("add_wrapping", "add"), ("sub_wrapping", "sub"), ("mul_wrapping", "mul"),
                  ("add", "add"), ("sub", "sub"), ("mul", "mul"), ("neg", "neg_checked"),
                  ("shl", "shl"), ("shr", "shr"), ("sar", "sar"), ("bounds", "bounds"), ("index", "bounds"),
-                 ("cmp", "cmp"), ("compare", "cmp"), ("div", "div_checked"), ("mod", "mod_checked")]
+                 ("cmp", "cmp"), ("compare", "cmp"), ("div", "div_checked"), ("mod", "mod_checked"),
+                 ("array_size", "array_size"), ("arraySize", "array_size"), ("remembered", "remembered")]
 # helper calls whose bytes are compared beyond the arithmetic cases (what `h_c01m real` supports)
 EXTRA_CALLS = [
     "int_and {m} {d} {l} {r}", "int_or {m} {d} {l} {r}", "int_xor {m} {d} {l} {r}", "int_not {m} {d} {l}", "int_neg {m} {d} {l}",
@@ -160,7 +167,7 @@ EXTRA_CALLS = [
     "load_int_const {m} {d} -5", "load_true {d}", "load_false {d}", "cmp_reg_imm Int32 {l} 64",
     "bailout_if UnsignedGreaterEq SHIFT", "bailout_if Zero DIV0", "check_shift_amount {r} {m}",
 ]
-ASSIGN = [(0, 0, 13), (3, 6, 9), (8, 8, 1), (12, 1, 1), (2, 7, 0), (15, 14, 10)]
+ASSIGN = [(0, 0, 13), (3, 6, 9), (8, 8, 1), (12, 1, 1), (2, 7, 0), (15, 14, 10), (14, 13, 13), (13, 13, 13), (7, 14, 14)]
 CONDS = list(REL)
 
 
@@ -214,7 +221,64 @@ def kinds_of(name):
     return ks
 
 
+def check_runtime_rules(ctx, report):
+    """the hand model X64/MasmRuntimeRules.lean against the Rust text: constants and comparison operators"""
+    rd = lambda p: open(os.path.join(C.REPO, p), encoding="utf-8").read()
+    sw, mi = rd("dora-runtime/src/gc/swiper.rs"), rd("dora-runtime/src/mirror.rs")
+    lean = open(os.path.join(C.LEAN, RULES_FILE), encoding="utf-8").read()
+    abi = report.get("abi_consts", {})
+    problems = []
+
+    def need(cond, what):
+        if not cond:
+            problems.append(what)
+    flat = lambda t: re.sub(r"\s+", " ", t)
+    m = re.search(r"fn alloc_object\(&self[^{]*\{(.*?)\n    \}", sw, re.S)
+    need(m and flat(m.group(1)).strip() == "if size < LARGE_OBJECT_SIZE { self.alloc_normal(rt, size) } else { self.alloc_large(rt, size) }",
+         "Swiper::alloc_object is no longer `if size < LARGE_OBJECT_SIZE { alloc_normal } else { alloc_large }`")
+    m = re.search(r"fn initial_metadata_value\(&self, size: usize, is_readonly: bool\) -> \(bool, bool\) \{(.*?)\n    \}", sw, re.S)
+    need(m and flat(m.group(1)).strip() == "if is_readonly { assert!(size < LARGE_OBJECT_SIZE); (true, false) } else if size < LARGE_OBJECT_SIZE "
+         "{ (false, true) } else { (false, false) }",
+         "Swiper::initial_metadata_value no longer has the transcribed body")
+    need(re.search(r"pub const LARGE_OBJECT_SIZE: usize = dora_compiler::LARGE_OBJECT_SIZE;", sw), "swiper.rs LARGE_OBJECT_SIZE is not dora_compiler's")
+    need(re.search(r"pub const REMEMBERED_BIT_SHIFT: usize = dora_compiler::REMEMBERED_BIT_SHIFT;", mi), "mirror.rs REMEMBERED_BIT_SHIFT is not dora_compiler's")
+    need(re.search(r"\(is_remembered as usize\) << REMEMBERED_BIT_SHIFT", mi), "HeaderWord::compute_word no longer shifts is_remembered by REMEMBERED_BIT_SHIFT")
+    ml = re.search(r"def largeObjectSize : Nat := ([0-9 *]+)", lean)
+    ms = re.search(r"def rememberedBitShift : Nat := (\d+)", lean)
+    need(ml and eval(ml.group(1), {"__builtins__": {}}) == abi.get("LARGE_OBJECT_SIZE"), "largeObjectSize of the hand model != LARGE_OBJECT_SIZE of abi.rs (%s)" % abi.get("LARGE_OBJECT_SIZE"))
+    need(ms and int(ms.group(1)) == abi.get("REMEMBERED_BIT_SHIFT"), "rememberedBitShift of the hand model != REMEMBERED_BIT_SHIFT of abi.rs (%s)" % abi.get("REMEMBERED_BIT_SHIFT"))
+    need("if size < largeObjectSize then some (false, true)" in lean and "!decide (size < largeObjectSize)" in lean,
+         "the hand model's comparison is no longer `size < largeObjectSize`")
+    for pr in problems:
+        ctx.finding("corr:remembered-rule", dict(kind="correspondence", problem=pr, hand_model=RULES_FILE,
+                                                  sources=["dora-runtime/src/gc/swiper.rs", "dora-runtime/src/mirror.rs", "dora-compiler/src/abi.rs"]),
+                    "runtime rule vs hand model: " + pr, no_input=True)
+    return dict(checked=8, problems=problems, LARGE_OBJECT_SIZE=abi.get("LARGE_OBJECT_SIZE"), REMEMBERED_BIT_SHIFT=abi.get("REMEMBERED_BIT_SHIFT"))
+
+
 # ----------------------------------------------------------------------------------------------- the leg
+def alloc_obligations(ctx):
+    """For C13 / C02 / C03: the theorems of Props/C13Masm.lean about the REGENERATED allocation sequences of the baseline
+    code generator (determine_array_size = (hdr + len*es + 7) & -8 = the size model of Props/C13.lean = the runtime's size;
+    compute_remembered_bit = the runtime's large-object rule). Regenerates the model from /repo, builds and audits the
+    theorems and checks the runtime-rule source lines. When a theorem no longer builds (or the rule text changed) the whole
+    machine leg runs under this property's context: it executes the regenerated sequences natively on the boundary grid and
+    reports the failing operand (`proof:<lemma>` with the input, `oracle:masm-grid:array_size|remembered`)."""
+    report = regenerate()
+    for h, why in report["unmodelled"].items():
+        ctx.finding("corr:masm-translate:" + h, dict(kind="correspondence", helper=h, reason=why),
+                    "tools/rs2lean_masm.py cannot translate required helper %s: %s" % (h, why), no_input=True)
+    po = C.proof_obligations(ctx, ALLOC_MODULE, ALLOC_FILE, extra_allowed=(BV_AXIOM,), hygiene_paths=HYGIENE)
+    before = len(ctx.violations)
+    rules = check_runtime_rules(ctx, report)
+    res = dict(module=ALLOC_MODULE, obligations=po["obligations"], discharged=po["discharged"], theorems=po["theorems"],
+               runtime_rules=rules, trusted_base=po["trusted_base"])
+    if not po["build_ok"] or po["failed"] or len(ctx.violations) > before:
+        full = leg(ctx)
+        res["search"] = dict(grid=full.get("grid"), x64sem=full.get("x64sem", {}).get("mismatch"))
+    return res
+
+
 def leg(ctx):
     import time
     t0 = time.time()
@@ -230,6 +294,17 @@ def leg(ctx):
                     "tools/rs2lean_masm.py cannot translate required helper %s: %s" % (h, why), no_input=True)
     # (b) theorems
     po = C.proof_obligations(ctx, PROP_MODULE, PROP_FILE, extra_allowed=(BV_AXIOM,), hygiene_paths=HYGIENE)
+    po2 = C.proof_obligations(ctx, ALLOC_MODULE, ALLOC_FILE, extra_allowed=(BV_AXIOM,), hygiene_paths=HYGIENE)
+    for k in ("obligations", "discharged"):
+        po[k] += po2[k]
+    po["theorems"] = dict(po["theorems"], **po2["theorems"])
+    po["failed"] = po["failed"] + po2["failed"]
+    po["build_ok"] = po["build_ok"] and po2["build_ok"]
+    po["build_log_tail"] = (po.get("build_log_tail", "") + "\n" + po2.get("build_log_tail", ""))[-3000:]
+    po["checker_cmd"] = po["checker_cmd"].replace(PROP_MODULE, PROP_MODULE + " " + ALLOC_MODULE, 1) + " (and of " + ALLOC_FILE + ")"
+    cov["alloc_theorems"] = dict(module=ALLOC_MODULE, obligations=po2["obligations"], discharged=po2["discharged"],
+                                 serves=["C13", "C02", "C03"])
+    cov["runtime_rules"] = check_runtime_rules(ctx, report)
     C.log("[c01m] regenerate + theorems %.0fs (%d/%d)" % (time.time() - t0, po["discharged"], po["obligations"]))
     t0 = time.time()
     cov.update(obligations=po["obligations"], discharged=po["discharged"], checker_cmd=po["checker_cmd"],
@@ -273,6 +348,11 @@ def leg(ctx):
                 bytecalls.append(tpl.format(m=m, d=d, l=l, r=r))
         for m in ("Int8", "Int32", "Int64", "Ptr"):
             bytecalls.append("cmp_reg %s %d %d" % (m, l, r))
+        for es in ARRAY_ES:
+            for hdr in ("true", "false"):
+                bytecalls.append("determine_array_size %d %d %d %s" % (d, l, es, hdr))
+        if d != l:
+            bytecalls.append("compute_remembered_bit %d %d" % (d, l))
         for c in CONDS:
             bytecalls.append("set %d %s" % (d, c))
             bytecalls.append("cmp_reg Int64 %d %d;set %d %s" % (l, r, d, c))
@@ -382,6 +462,31 @@ def leg(ctx):
             for idx in (0, 1, -1, 4, 5, 6, ln - 1, ln, ln + 1, -(1 << 63), (1 << 63) - 1):
                 cases.append(("bounds", "bounds", 64, "check_index_out_of_bounds 0 13", 0, 0, 13, idx, ln,
                               regs_line({0: arr, 13: idx}, rng), "%x=%x" % (arr + 8, ln & M64)))
+    # allocation sequences: array size (all five shapes, with/without header) and the remembered bit
+    los, rshift = report.get("abi_consts", {}).get("LARGE_OBJECT_SIZE", 0), report.get("abi_consts", {}).get("REMEMBERED_BIT_SHIFT", 0)
+    for (d, l) in ((14, 13), (13, 13)):
+        for es in ARRAY_ES:
+            for hdr in ("true", "false"):
+                call = "determine_array_size %d %d %d %s" % (d, l, es, hdr)
+                if prog.get(call, ("", ""))[0] != "ok":
+                    continue
+                hs = 16 if hdr == "true" else 0
+                lens = set(range(0, 18))
+                for base in ((1 << 61), (1 << 63), (1 << 64) // es, ((1 << 64) - hs - 7) // es, ((1 << 63) - 1 - 24) // es, 32768 // es):
+                    lens.update(base + dd for dd in (-2, -1, 0, 1, 2))
+                lens.update(rng.getrandbits(rng.choice((8, 20, 40, 64))) for _ in range(4))
+                lens = sorted(x & M64 for x in lens)
+                if (d, l) != (14, 13):
+                    lens = lens[::3]
+                for ln in lens:
+                    cases.append(("array_size:es%d:hdr-%s:%d,%d" % (es, hdr, d, l), "array_size", 64, call, d, l, l, ln, es,
+                                  regs_line({l: ln}, rng), hdr))
+    call = "compute_remembered_bit 7 14"
+    if prog.get(call, ("", ""))[0] == "ok":
+        szs = {0, 1, 8, 16, los - 9, los - 8, los - 1, los, los + 1, los + 8, 2 * los, (1 << 31), (1 << 32) + los - 1, (1 << 63), M64, M64 - 7}
+        szs.update(rng.getrandbits(rng.choice((12, 15, 16, 17, 64))) for _ in range(24))
+        for sz in sorted(x & M64 for x in szs):
+            cases.append(("remembered", "remembered", 64, call, 7, 14, 14, sz, 0, regs_line({14: sz}, rng), "-"))
     req = []
     for i, cs in enumerate(cases):
         mem = cs[10] if cs[1] == "bounds" else "-"
@@ -430,6 +535,12 @@ def leg(ctx):
                 rel = REL[aux](sx(a, w), sx(b, w), a & ((1 << w) - 1), b & ((1 << w) - 1))
                 exp = ("done", (rin[0] & ~0xFF & M64) | (1 if rel else 0))
                 got = (ans_[1], regs_out[0]) if ans_[1] == "done" else (ans_[1], None)
+            elif kind == "array_size":
+                exp = ("done", ((16 if aux == "true" else 0) + (a & M64) * b + 7) & ~7 & M64)
+                got = (ans_[1], regs_out[d]) if ans_[1] == "done" else (ans_[1], None)
+            elif kind == "remembered":
+                exp = ("done", (1 << rshift) if (a & M64) < los else 0)
+                got = (ans_[1], regs_out[d]) if ans_[1] == "done" else (ans_[1], None)
             elif kind == "bounds":
                 inb = (a & M64) < (b & M64)
                 exp = ("done", None) if inb else ("trap", traps["INDEX_OUT_OF_BOUNDS"])
